@@ -5,7 +5,7 @@
 //! exit: 0 held on everything observed; 1 violation (a `VIOLATION property=<id> replay=<path>` line was
 //! printed); 2 inconclusive (coverage floor missed or harness error; an `INCONCLUSIVE` line was printed).
 
-// mod doubles;
+mod doubles;
 mod refs;
 // mod refctl;
 mod refsign;
@@ -23,13 +23,13 @@ mod c07;
 // mod c10;
 mod c12;
 mod c13;
-// mod c14;
-// mod c15;
-// mod c16;
+mod c14;
+mod c15;
+mod c16;
 // mod c17;
-// mod c18;
-// mod c19;
-// mod c20;
+mod c18;
+mod c19;
+mod c20;
 // mod ctl;
 mod vsx;
 
@@ -126,13 +126,13 @@ fn main() {
         // "C11" => c10::run(&ctx, true),
         "C12" => c12::run(&ctx),
         "C13" => c13::run(&ctx),
-        // "C14" => c14::run(&ctx),
-        // "C15" => c15::run(&ctx),
-        // "C16" => c16::run(&ctx),
+        "C14" => c14::run(&ctx),
+        "C15" => c15::run(&ctx),
+        "C16" => c16::run(&ctx),
         // "C17" => c17::run(&ctx),
-        // "C18" => c18::run(&ctx),
-        // "C19" => c19::run(&ctx),
-        // "C20" => c20::run(&ctx),
+        "C18" => c18::run(&ctx),
+        "C19" => c19::run(&ctx),
+        "C20" => c20::run(&ctx),
         _ => usage(),
     };
     let wall = start.elapsed().as_secs_f64();
@@ -346,7 +346,7 @@ fn run_replay(ctx: &Ctx, path: &str) -> i32 {
         "C04" => c04::replay(&detail, &mut rep),
         "C05" => c05::replay(&detail, &mut rep),
         "C12" | "C13" => vsx::replay(&ctx.prop, &detail, &mut rep),
-        // "C14" => c14::replay(&detail, &mut rep),
+        "C14" => c14::replay(&detail, &mut rep),
         _ => false,
     };
     if !supported {
